@@ -197,7 +197,7 @@ namespace
                 break;
             case 4: {
                 static const char* nums[] = { "99999999999999999999", "-1", "1e400", "0x7fffffff", "4294967296", "18446744073709551616", "nan", "+" };
-                t.insert(c.pick(uint32_t(t.size() + 1)), nums[c.pick(8)]);
+                t.insert(c.pick(uint32_t(t.size() + 1)), c.coin(100) ? gen::boundary_number(c, c.coin(40)) : std::string(nums[c.pick(8)]));
                 break;
             }
             default: {
@@ -217,7 +217,43 @@ namespace
             return v;
         }();
         unsigned which = c.pick(uint32_t(names.size() + 6));
-        std::string what, text;
+        std::string what, text, forced;
+        bool slot = false;
+        if (c.coin(70))
+        {
+            // number slot: a well-formed text whose one numeric position holds a value next to the edge
+            // of an integer type ("overlong numbers" of the quantifier, aimed instead of hoped for)
+            struct Tpl
+            {
+                const char* target; // registered header name (lower case) or "#<k>" for the non-header parsers below
+                const char* text;   // %N = the number
+                bool hex;
+            };
+            static const Tpl tpls[] = {
+                { "cache-control", "max-age=%N", false }, { "cache-control", "s-maxage=%N", false }, { "cache-control", "max-stale=%N", false },
+                { "cache-control", "private, min-fresh=%N", false }, { "content-length", "%N", false }, { "host", "a:%N", false }, { "host", "[::1]:%N", false },
+                { "date", "Sun, 06 Nov %N 08:49:37 GMT", false }, { "date", "Sun, %N Nov 1994 08:49:37 GMT", false }, { "date", "Sun, 06 Nov 1994 08:49:%N GMT", false },
+                { "accept", "text/html;q=%N", false }, { "accept", "text/html; q=0.%N", false }, { "content-type", "text/plain; q=%N", false },
+                { "#0", "a=b; Max-Age=%N", false }, { "#0", "a=b; Max-Age=%N; Secure", false }, { "#0", "a=b; Expires=Sun, 06 Nov %N 08:49:37 GMT", false },
+                { "#1", "a=b; c=%N", false }, { "#2", "text/plain; q=%N", false }, { "#2", "text/plain; q=0.%N", false },
+                { "#3", "127.0.0.1:%N", false }, { "#3", "[::1]:%N", false }, { "#3", "%N.0.0.1:80", false }, { "#4", "%N", false },
+            };
+            const Tpl& tp = tpls[c.pick(uint32_t(sizeof tpls / sizeof tpls[0]))];
+            forced        = tp.text;
+            forced.replace(forced.find("%N"), 2, gen::boundary_number(c, tp.hex));
+            if (tp.target[0] == '#')
+                which = unsigned(names.size()) + unsigned(tp.target[1] - '0');
+            else
+                for (unsigned i = 0; i < names.size(); ++i)
+                {
+                    std::string l = names[i];
+                    for (auto& ch : l)
+                        ch = char(tolower(ch));
+                    if (l == tp.target)
+                        which = i;
+                }
+            slot = true;
+        }
         Track t;
         try
         {
@@ -227,8 +263,10 @@ namespace
                 for (auto& ch : lname)
                     ch = char(tolower(ch));
                 auto& seeds = seeds_for(lname);
-                text        = c.coin(40) ? c.bytes(c.range(0, 30)) : mutate_text(c, seeds[c.pick(uint32_t(seeds.size()))]);
+                text        = slot ? forced : c.coin(40) ? c.bytes(c.range(0, 30)) : mutate_text(c, seeds[c.pick(uint32_t(seeds.size()))]);
                 what        = "Header[" + names[which] + "]::parse";
+                if (slot)
+                    rep.label("value:number-slot");
                 rep.label("value:" + names[which]);
                 rep.sample(what + "(\"" + printable(text, 120) + "\")");
                 auto h = Header::Registry::instance().makeHeader(names[which]);
@@ -254,7 +292,7 @@ namespace
                 switch (k)
                 {
                 case 0:
-                    text = c.coin(40) ? c.bytes(c.range(0, 30)) : mutate_text(c, cookies[c.pick(6)]);
+                    text = slot ? forced : c.coin(40) ? c.bytes(c.range(0, 30)) : mutate_text(c, cookies[c.pick(6)]);
                     what = "Cookie::fromString";
                     rep.sample(what + "(\"" + printable(text, 120) + "\")");
                     {
@@ -264,7 +302,7 @@ namespace
                     }
                     break;
                 case 1:
-                    text = c.coin(40) ? c.bytes(c.range(0, 30)) : mutate_text(c, cookies[c.pick(6)]);
+                    text = slot ? forced : c.coin(40) ? c.bytes(c.range(0, 30)) : mutate_text(c, cookies[c.pick(6)]);
                     what = "CookieJar::addFromRaw[guard page]";
                     rep.sample(what + "(\"" + printable(text, 120) + "\")");
                     {
@@ -277,13 +315,13 @@ namespace
                     }
                     break;
                 case 2:
-                    text = c.coin(40) ? c.bytes(c.range(0, 30)) : mutate_text(c, mimes[c.pick(6)]);
+                    text = slot ? forced : c.coin(40) ? c.bytes(c.range(0, 30)) : mutate_text(c, mimes[c.pick(6)]);
                     what = "MediaType::fromRaw[guard page]";
                     rep.sample(what + "(\"" + printable(text, 120) + "\")");
                     (void)Mime::MediaType::fromRaw(guard_copy(text), text.size()).toString();
                     break;
                 case 3:
-                    text = c.coin(40) ? c.from("0123456789.:[]*abclocalhost", c.range(0, 24)) : mutate_text(c, addrs[c.pick(8)]);
+                    text = slot ? forced : c.coin(40) ? c.from("0123456789.:[]*abclocalhost", c.range(0, 24)) : mutate_text(c, addrs[c.pick(8)]);
                     for (auto& ch : text) // keep the resolver out of it: no NUL inside the text
                         if (ch == 0)
                             ch = '0';
@@ -296,7 +334,7 @@ namespace
                     }
                     break;
                 case 4:
-                    text = mutate_text(c, c.coin(128) ? "8080" : "65535");
+                    text = slot ? forced : mutate_text(c, c.coin(128) ? "8080" : "65535");
                     what = "Port(std::string)";
                     rep.sample(what + "(\"" + printable(text, 120) + "\")");
                     (void)Port(text).toString();
@@ -311,6 +349,8 @@ namespace
                     }
                 }
                 rep.label("value:" + what);
+                if (slot)
+                    rep.label("value:number-slot");
             }
             rep.label("value-parser:accepted");
         }
